@@ -6,6 +6,7 @@ import (
 	"encoding/binary"
 	"fmt"
 	"io"
+	"log"
 	"math"
 	"net/http"
 	"os"
@@ -29,6 +30,7 @@ import (
 	"verif/harness/internal/casfmt"
 	"verif/harness/internal/cl"
 	"verif/harness/internal/ev"
+	"verif/harness/internal/fproxy"
 	"verif/harness/internal/gen"
 	"verif/harness/internal/inv"
 	"verif/harness/internal/rt"
@@ -38,6 +40,8 @@ import (
 func TestMain(m *testing.M) { rt.Main(m, "C14") }
 
 var E = ev.Get("C14")
+
+var stackSilent = log.New(io.Discard, "", 0)
 
 var journal *os.File
 
@@ -759,3 +763,80 @@ func TestC14DiskFiles(t *testing.T) {
 }
 
 var _ = http.MethodGet
+
+// TestC14Backend: requests that end early (fail-fast dependency check, client
+// abort) while backend existence checks are still queued must leave nothing behind.
+func TestC14Backend(t *testing.T) {
+	rt.Check(t, rt.N(60, 500), func(t *rapid.T) {
+		inv.SetBaseline()
+		px := fproxy.New()
+		maxDelay := rapid.SampledFrom([]int{0, 500, 3000, 10000}).Draw(t, "maxDelayMicros")
+		px.ContDelay = func(hash string) time.Duration {
+			if maxDelay == 0 {
+				return 0
+			}
+			return time.Duration(int(hash[0])*int(hash[2])%maxDelay) * time.Microsecond
+		}
+		s, err := stack.New(stack.Opts{Proxy: px})
+		if err != nil {
+			t.Fatal(err)
+		}
+		defer s.Close()
+		n := rapid.SampledFrom([]int{1, 5, 25, 60, 600}).Draw(t, "n")
+		inBackend := rapid.SampledFrom([]string{"none", "some", "all-but-one", "all"}).Draw(t, "inBackend")
+		var ds []*pb.Digest
+		for i := 0; i < n; i++ {
+			data := gen.Expand(uint64(i)+5000, 30, "rand")
+			d := &pb.Digest{Hash: gen.SHA(data), SizeBytes: 30}
+			ds = append(ds, d)
+			have := inBackend == "all" || (inBackend == "some" && i%3 != 0) || (inBackend == "all-but-one" && i != n/2)
+			if have {
+				px.Set(cache.CAS, d.Hash, fproxy.Obj{Stored: data, Logical: 30})
+			}
+		}
+		surface := rapid.SampledFrom([]string{"findmissing-abort", "depcheck", "depcheck-http"}).Draw(t, "surface")
+		what := note("%s with %d digests (backend holds: %s, backend delay <= %dus)", surface, n, inBackend, maxDelay)
+		statusCls := "-"
+		switch surface {
+		case "findmissing-abort":
+			to := time.Duration(rapid.SampledFrom([]int{0, 1, 5, 50, 20000}).Draw(t, "timeoutMillis")) * time.Millisecond
+			ctx, cancel := context.WithTimeout(context.Background(), to)
+			_, err := s.CAS.FindMissingBlobs(ctx, &pb.FindMissingBlobsRequest{BlobDigests: ds})
+			cancel()
+			statusCls = status.Code(err).String()
+		default:
+			ar := &pb.ActionResult{ExecutionMetadata: &pb.ExecutedActionMetadata{Worker: "w"}}
+			for i, d := range ds {
+				if i >= 200 {
+					break
+				}
+				ar.OutputFiles = append(ar.OutputFiles, &pb.OutputFile{Path: fmt.Sprint("f", i), Digest: d})
+			}
+			body, _ := proto.Marshal(ar)
+			key := gen.SHA([]byte("dep"))
+			if err := s.Cache.Put(context.Background(), cache.AC, key, int64(len(body)), bytes.NewReader(body)); err != nil {
+				t.Fatal(err)
+			}
+			px.Wait()
+			if surface == "depcheck" {
+				ctx, cancel := cl.Ctx()
+				_, err := s.AC.GetActionResult(ctx, &pb.GetActionResultRequest{ActionDigest: &pb.Digest{Hash: key, SizeBytes: 1}})
+				cancel()
+				statusCls = status.Code(err).String()
+				if inBackend == "all" && err != nil {
+					t.Fatalf("every dependency is in the backend but the lookup failed: %v: %s", err, what)
+				}
+				if inBackend != "all" && err == nil {
+					t.Fatalf("a dependency is absent everywhere but the lookup hit: %s", what)
+				}
+			} else {
+				r := cl.HTTPGet(s, "/ac/"+key, nil)
+				statusCls = fmt.Sprint(r.Code)
+			}
+		}
+		what += " -> " + statusCls
+		E.Case("backend|"+surface+"|"+inBackend+"|"+statusCls+fmt.Sprint(n), true, "surface="+surface, "status="+surface+":"+statusCls)
+		E.Sample(surface+"/"+inBackend, what)
+		settle(t, s, what)
+	})
+}
